@@ -145,7 +145,9 @@ func checkC19(r *Result) {
 				return false, false
 			}
 			a, b := rel.Args[0], rel.Args[1]
-			isAuth := func(t *Term) bool { return strings.HasPrefix(t.Op, "call:") && isGetAuthority(strings.TrimPrefix(t.Op, "call:")) }
+			isAuth := func(t *Term) bool {
+				return strings.HasPrefix(t.Op, "call:") && isGetAuthority(strings.TrimPrefix(t.Op, "call:"))
+			}
 			isFld := func(t *Term) bool { return strings.HasPrefix(t.Op, field) }
 			if (isAuth(a) && isFld(b)) || (isAuth(b) && isFld(a)) {
 				return true, true
@@ -584,7 +586,9 @@ func (tr *tracer) traceLoad(addr ssa.Value, fn *ssa.Function, stack []ssa.CallIn
 		}
 		// a field of some other struct: where does the struct come from?
 		t := NewTermer().Of(a)
-		if c := t.Find(func(t *Term) bool { return strings.HasPrefix(t.Op, "call:") && strings.Contains(t.Op, "cosmossdk.io/collections") }); c != nil {
+		if c := t.Find(func(t *Term) bool {
+			return strings.HasPrefix(t.Op, "call:") && strings.Contains(t.Op, "cosmossdk.io/collections")
+		}); c != nil {
 			out["store:"+fieldName(a.X.Type(), a.Field)] = true
 			return
 		}
